@@ -230,7 +230,7 @@ def stepOp (d : DSt) (op : Op) : DSt × String :=
   let (d1, ds, stat) : DSt × List Delivered × String :=
     match op with
     | .mut ms declared =>
-      let d0 := { d with conts := d.conts ++ declared }
+      let d0 := { d with conts := d.conts ++ declared.filter (fun c => !d.conts.contains c) }
       let r := runMuts d0 ms
       (r.1, r.2.1, status r.2.2)
     | .observe hd root rm e =>
